@@ -3,9 +3,13 @@
    Four decoders are modelled as REPAIRED in the working tree: ReadTTL (counts outside 0..255
    and unknown unit letters are errors), NewVolumeId (parsed as 32-bit),
    NewReplicaPlacementFromString (lengths other than 0 and 3 are errors) and ReadSuperBlock
-   (the extra metadata is read from the file). *)
+   (the extra metadata is read from the file).
+   Known findings (kept in the model as the code is): 0 = a file id with needle key 0 prints
+   without key digits and does not parse back (c08_file_id_refuted / _partial / _iff);
+   1 = LoadTTLFromUint32 decodes integers that are not the ToUint32 of any TTL
+   (c08_ttl_u32_refuted / c08_ttl_u32_accept_iff). *)
 From Coq Require Import List NArith ZArith Bool.
-From SW Require Import model.Needle model.Codecs proof.NeedleProofs proof.CodecsProofs.
+From SW Require Import model.Needle model.Codecs proof.NeedleProofs proof.CodecsProofs proof.CodecsAccept.
 Import ListNotations.
 Local Open Scope N_scope.
 
@@ -54,6 +58,24 @@ Theorem c08_ttl_u32_roundtrip : forall c u, c < 256 -> u < 256 ->
 Proof. exact ttl_u32_roundtrip. Qed.
 Print Assumptions c08_ttl_u32_roundtrip.
 
+(* TTL integers, decoder side.  "Every integer that is not an encoding is rejected" is FALSE
+   (LoadTTLFromUint32 has no error path and reads the low 16 bits only): finding 1 *)
+Theorem c08_ttl_u32_refuted : exists x, x < 2 ^ 32 /\ ttl_to_u32 (load_ttl_u32 x) <> x /\ load_ttl_u32 x = (5, 1).
+Proof. exact ttl_u32_refuted. Qed.
+Print Assumptions c08_ttl_u32_refuted.
+
+(* the trigger is exact: an integer decodes to a TTL that encodes to it again iff it is outside
+   trig_ttl_u32, i.e. below 2^16 and either 0 or with a non-zero count byte *)
+Theorem c08_ttl_u32_accept_iff : forall x, ttl_to_u32 (load_ttl_u32 x) = x <-> trig_ttl_u32 x = false.
+Proof. exact ttl_u32_accept_iff. Qed.
+Print Assumptions c08_ttl_u32_accept_iff.
+
+(* TTL bytes, decoder side: every two bytes are the encoding of exactly the (count, unit) read,
+   unknown units included - there is nothing to reject *)
+Theorem c08_ttl_bytes_accept_all : forall a b, ttl_to_bytes (load_ttl_bytes [a; b]) = [a; b].
+Proof. exact ttl_bytes_accept_all. Qed.
+Print Assumptions c08_ttl_bytes_accept_all.
+
 (* rejection (repaired code): an accepted TTL string denotes exactly the TTL returned — the
    count is the integer written, without wrap-around, and the unit letter is known *)
 Theorem c08_ttl_reject : forall s c u, s <> [] -> read_ttl s = Some (c, u) ->
@@ -73,7 +95,30 @@ Theorem c08_volume_id_reject : forall s v, new_volume_id s = Some v ->
 Proof. exact volume_id_reject. Qed.
 Print Assumptions c08_volume_id_reject.
 
-(* ---------- file ids: every volume, key >= 1, cookie ---------- *)
+(* ---------- file ids ---------- *)
+(* FULL statement (every volume, key, cookie) is FALSE on the code as it is: finding 0 *)
+Theorem c08_file_id_refuted : exists vid key cookie, vid < 2 ^ 32 /\ key < 2 ^ 64 /\ cookie < 2 ^ 32 /\
+  parse_file_id (fid_string vid key cookie) <> Some (vid, key, cookie).
+Proof. exact file_id_refuted. Qed.
+Print Assumptions c08_file_id_refuted.
+
+(* ... and the trigger is exact: the round trip holds precisely outside trig_key0 (key = 0) *)
+Theorem c08_file_id_partial : forall vid key cookie, vid < 2 ^ 32 -> key < 2 ^ 64 -> cookie < 2 ^ 32 ->
+  (parse_file_id (fid_string vid key cookie) = Some (vid, key, cookie) <-> trig_key0 key = false).
+Proof. exact file_id_roundtrip_iff. Qed.
+Print Assumptions c08_file_id_partial.
+
+(* inside the trigger the string is rejected (never decoded to another id), whatever volume and cookie *)
+Theorem c08_file_id_key0_rejected : forall vid cookie, parse_file_id (fid_string vid 0 cookie) = None.
+Proof. exact file_id_key0. Qed.
+Print Assumptions c08_file_id_key0_rejected.
+
+Theorem c08_parse_path_partial : forall key cookie, key < 2 ^ 64 -> cookie < 2 ^ 32 ->
+  (parse_path (format_key_cookie key cookie) = Some (key, cookie) <-> trig_key0 key = false).
+Proof. exact parse_path_roundtrip_iff. Qed.
+Print Assumptions c08_parse_path_partial.
+
+(* the same, in the form with the hypothesis 1 <= key *)
 Theorem c08_file_id_roundtrip : forall vid key cookie, vid < 2 ^ 32 -> 1 <= key -> key < 2 ^ 64 ->
   cookie < 2 ^ 32 -> parse_file_id (fid_string vid key cookie) = Some (vid, key, cookie).
 Proof. exact file_id_roundtrip. Qed.
@@ -99,6 +144,26 @@ Theorem c08_key_cookie_reject : forall s key cookie, parse_key_cookie s = Some (
 Proof. exact parse_key_cookie_sound. Qed.
 Print Assumptions c08_key_cookie_reject.
 
+(* ParseFileIdFromString as a whole: split at the FIRST comma; a non-empty decimal volume id
+   below 2^32 before it, an accepted key/cookie string after it *)
+Theorem c08_file_id_reject : forall s vid key cookie, parse_file_id s = Some (vid, key, cookie) ->
+  exists vs ks, s = vs ++ 44 :: ks /\ ~ In 44 vs /\ vs <> [] /\ dec_val vs 0 = Some vid /\ vid < 2 ^ 32 /\
+                parse_key_cookie ks = Some (key, cookie).
+Proof. exact parse_file_id_sound. Qed.
+Print Assumptions c08_file_id_reject.
+
+(* Needle.ParsePath as a whole: an accepted key/cookie string, or one followed by the LAST
+   underscore and a delta that is empty (ignored) or a decimal number below 2^64, added to the
+   key modulo 2^64; anything else (bad, signed or overflowing delta) is an error *)
+Theorem c08_parse_path_reject : forall s k ck, parse_path s = Some (k, ck) ->
+  8 < len s /\
+  (parse_key_cookie s = Some (k, ck) \/
+   exists f d k0, s = f ++ 95 :: d /\ f <> [] /\ ~ In 95 d /\ parse_key_cookie f = Some (k0, ck) /\
+     ((d = [] /\ k = k0) \/
+      (d <> [] /\ exists dv, dec_val d 0 = Some dv /\ dv < 2 ^ 64 /\ k = (k0 + dv) mod 18446744073709551616))).
+Proof. exact parse_path_sound. Qed.
+Print Assumptions c08_parse_path_reject.
+
 (* ---------- super block ---------- *)
 (* FULL round trip (repaired code: the extra bytes are read from the file), with or without
    extra metadata, whatever follows the super block in the file.  [pb] is the protobuf oracle
@@ -109,6 +174,18 @@ Theorem c08_superblock_roundtrip : forall pb s tail, sb_ok s -> len (sb_extra s)
   sb_read pb (sb_bytes s ++ tail) = Some s.
 Proof. exact sb_roundtrip. Qed.
 Print Assumptions c08_superblock_roundtrip.
+
+(* the same for exactly the super blocks Bytes() can write: Bytes() is a glog.Fatalf when the
+   marshalled extra is longer than 256*256-2 = 65534 bytes (sb_bytes_checked = None) *)
+Theorem c08_superblock_roundtrip_checked : forall pb s b tail, sb_ok s -> sb_bytes_checked s = Some b ->
+  (sb_has_extra s = true -> pb (sb_extra s) = Some (sb_extra s)) ->
+  sb_read pb (b ++ tail) = Some s.
+Proof. exact sb_roundtrip_checked. Qed.
+Print Assumptions c08_superblock_roundtrip_checked.
+
+Theorem c08_superblock_bytes_fatal : forall s, sb_bytes_checked s = None <-> 65534 < len (sb_extra s).
+Proof. exact sb_bytes_checked_none. Qed.
+Print Assumptions c08_superblock_bytes_fatal.
 
 (* rejection: whatever ReadSuperBlock accepts is the super block the header bytes denote; a
    truncated extra or one that protobuf rejects is an error *)
@@ -123,6 +200,25 @@ Theorem c08_superblock_reject : forall pb file s, sb_read pb file = Some s ->
 Proof. exact sb_read_sound. Qed.
 Print Assumptions c08_superblock_reject.
 
+(* ... and that is ALL it checks: the exact set of accepted files.  The version byte and the two
+   TTL bytes are unconstrained (every value decodes to itself) *)
+Theorem c08_superblock_accept_iff : forall pb file s, sb_read pb file = Some s <->
+  (8 <= len file /\ rp_from_byte (nth 1 file 0) = Some (sb_rp s) /\
+   sb_version s = nth 0 file 0 /\ sb_ttl s = (nth 2 file 0, nth 3 file 0) /\
+   sb_compaction s = be_decode (takeN 2 (dropN 4 file)) /\
+   let extra_size := be_decode (takeN 2 (dropN 6 file)) in
+   (if 0 <? extra_size
+    then len (takeN extra_size (dropN 8 file)) = extra_size /\ pb (takeN extra_size (dropN 8 file)) = Some (sb_extra s)
+    else sb_extra s = [])).
+Proof. exact sb_read_iff. Qed.
+Print Assumptions c08_superblock_accept_iff.
+
+Theorem c08_superblock_any_version : forall pb v c u,
+  sb_read pb [v; 0; c; u; 0; 0; 0; 0] =
+    Some {| sb_version := v; sb_rp := (0, 0, 0); sb_ttl := (c, u); sb_compaction := 0; sb_extra := [] |}.
+Proof. exact sb_read_any_version. Qed.
+Print Assumptions c08_superblock_any_version.
+
 (* ---------- index entries ---------- *)
 Theorem c08_idx_roundtrip : forall key off size, key < 2 ^ 64 -> off < 2 ^ 32 ->
   (- 2147483648 <= size < 2147483648)%Z ->
@@ -134,6 +230,25 @@ Theorem c08_offset_roundtrip : forall a, a mod 8 = 0 -> a < 34359738368 ->
   to_actual_offset (to_offset a) = a.
 Proof. exact offset_roundtrip. Qed.
 Print Assumptions c08_offset_roundtrip.
+
+(* both offset widths (osz = types.OffsetSize: 4, or 5 with -tags 5BytesOffset) *)
+Theorem c08_idx_roundtrip_w : forall osz key off size, osz = 4 \/ osz = 5 -> key < 2 ^ 64 -> off < off_limit osz ->
+  (- 2147483648 <= size < 2147483648)%Z ->
+  idx_parse_w osz (idx_bytes_w osz key off size) = (key, off, size) /\
+  len (idx_bytes_w osz key off size) = 12 + osz.
+Proof. exact idx_roundtrip_w. Qed.
+Print Assumptions c08_idx_roundtrip_w.
+
+Theorem c08_idx_bytes_w4 : forall key off size, off < 2 ^ 32 -> idx_bytes_w 4 key off size = idx_bytes key off size.
+Proof. exact idx_bytes_w4. Qed.
+Print Assumptions c08_idx_bytes_w4.
+
+(* exact: an actual offset survives ToOffset / ToActualOffset iff it is a multiple of 8 below
+   MaxPossibleVolumeSize (32 GiB, 8 TiB with 5 bytes); beyond it wraps silently *)
+Theorem c08_offset_roundtrip_iff : forall osz a, osz = 4 \/ osz = 5 ->
+  (to_actual_offset (to_offset_w osz a) = a <-> a mod 8 = 0 /\ a < max_volume_size osz).
+Proof. exact offset_roundtrip_iff. Qed.
+Print Assumptions c08_offset_roundtrip_iff.
 
 (* ---------- concrete rejections (the repaired defects among them) and non-vacuity ---------- *)
 Example c08_reject_examples :
@@ -150,6 +265,7 @@ Example c08_reject_examples :
   /\ rp_from_string [48; 48; 49; 49] = None    (* "0011" *)
   /\ rp_from_byte 3 = None /\ rp_from_byte 255 = None.
 Proof. exact reject_examples. Qed.
+Print Assumptions c08_reject_examples.
 
 Example c08_example :
   fid_string 3 1 1668298710 = [51; 44; 48; 49; 54; 51; 55; 48; 51; 55; 100; 54]   (* "3,01637037d6" *)
@@ -160,4 +276,29 @@ Example c08_example :
      = Some {| sb_version := 3; sb_rp := (0, 1, 2); sb_ttl := (15, 3); sb_compaction := 7; sb_extra := [10; 9; 8] |}
   /\ sb_read (fun b => Some b) [3; 12; 15; 3; 0; 7; 0; 3; 10; 9] = None      (* truncated extra *)
   /\ idx_parse (idx_bytes 5 9 (-1)) = (5, 9, (-1)%Z).
-Proof. vm_compute. repeat split; reflexivity. Qed.
+Proof. exact example_ok. Qed.
+Print Assumptions c08_example.
+
+(* the findings, the acceptance theorems and the 5-byte definitions on concrete inputs *)
+Example c08_example_more :
+  fid_string 3 0 1668298710 = [51; 44; 54; 51; 55; 48; 51; 55; 100; 54]          (* "3,637037d6": no key digits *)
+  /\ parse_file_id [51; 44; 54; 51; 55; 48; 51; 55; 100; 54] = None
+  /\ parse_file_id [51; 44; 48; 48; 54; 51; 55; 48; 51; 55; 100; 54] = Some (3, 0, 1668298710)   (* "3,00637037d6" *)
+  /\ trig_key0 0 = true /\ trig_key0 1 = false
+  /\ parse_path [48; 49; 54; 51; 55; 48; 51; 55; 100; 54; 95; 50] = Some (3, 1668298710)       (* "01637037d6_2" *)
+  /\ parse_path [48; 49; 54; 51; 55; 48; 51; 55; 100; 54; 95] = Some (1, 1668298710)           (* "01637037d6_" *)
+  /\ parse_path [48; 49; 54; 51; 55; 48; 51; 55; 100; 54; 95; 43; 49] = None                   (* "01637037d6_+1" *)
+  /\ parse_file_id [51; 44; 44; 48; 49; 54; 51; 55; 48; 51; 55; 100; 54] = None                (* "3,,01637037d6" *)
+  /\ load_ttl_u32 66817 = (5, 1) /\ ttl_to_u32 (5, 1) = 1281 /\ trig_ttl_u32 66817 = true      (* 0x10501 *)
+  /\ load_ttl_u32 5 = (0, 5) /\ ttl_to_u32 (0, 5) = 0 /\ trig_ttl_u32 5 = true
+  /\ trig_ttl_u32 1281 = false /\ trig_ttl_u32 0 = false
+  /\ load_ttl_bytes [5; 9] = (5, 9) /\ ttl_string (5, 9) = []                                 (* unknown unit: prints as "" *)
+  /\ sb_bytes_checked {| sb_version := 3; sb_rp := (0, 1, 2); sb_ttl := (15, 3); sb_compaction := 7; sb_extra := [10; 9; 8] |}
+     = Some [3; 12; 15; 3; 0; 7; 0; 3; 10; 9; 8]
+  /\ idx_parse_w 5 (idx_bytes_w 5 5 1099511627775 (-1)) = (5, 1099511627775, (-1)%Z)
+  /\ idx_bytes_w 5 5 4294967297 7 = [0; 0; 0; 0; 0; 0; 0; 5; 0; 0; 0; 1; 1; 0; 0; 0; 7]
+  /\ to_actual_offset (to_offset_w 5 34359738368) = 34359738368                              (* 32 GiB fits in 5 bytes *)
+  /\ to_actual_offset (to_offset_w 4 34359738368) = 0                                        (* and wraps in 4 *)
+  /\ to_actual_offset (to_offset_w 5 8796093022208) = 0.                                     (* 8 TiB wraps in 5 *)
+Proof. exact example_more. Qed.
+Print Assumptions c08_example_more.
